@@ -6,7 +6,7 @@ from .common import Run, corpus_cases, generic_replay, parse_list
 PROP = "C03"
 MODULE = "PLS.Props.C03"
 THEOREMS = ["PLS.C03_nothing_else", "PLS.C03_plain_function", "PLS.C03_fixture_iff", "PLS.C03_deps",
-            "PLS.C03_param_usage_span", "PLS.C03_contains_yield_sub", "PLS.C03_visitors_disagree",
+            "PLS.C03_param_usage_span", "PLS.C03_contains_yield_stmt_iff", "PLS.C03_contains_yield_iff",
             "PLS.C03_test_usages", "PLS.C03_events_for_file", "PLS.C03_analyzeModule_events_for"]
 RULE = ("grammar-directed programs (tools/plsv/proggen.py: every decorator spelling and argument form, sync/async, "
         "yield in 14 block/expression contexts, 12 annotation forms, 8 docstring layouts, nested classes, all parameter "
@@ -70,12 +70,15 @@ def compare(run, cname, path, text, impl_defs, impl_usages, same_model, cases, f
             else:
                 report(f"fixture {k}: dependencies recorded {g['deps']}, declared {w['deps']}")
         if not w.get("assign"):
+            # yields in expression position (`x = yield`, `return (yield)`, …) are the recorded finding; for the
+            # statement-level yields every visitor reaches, the answer must be right
+            exotic = (w["generator"], w["yield_line"]) != (w.get("covered_generator"), w.get("covered_yield_line"))
+            yid = "C03-yield-visitors-incomplete" if exotic else None
             if (g["yield_line"] is not None) != w["generator"] or (w["generator"] and g["yield_line"] != w["yield_line"]):
-                report(f"fixture {k}: generator/yield line recorded {g['yield_line']}, the body yields at {w['yield_line']}", "C03-yield-visitors-incomplete")
+                report(f"fixture {k}: generator/yield line recorded {g['yield_line']}, the body yields at {w['yield_line']}", yid)
             if w["has_ret"] and w["ret_simple"]:
                 if g["ret"] != w["ret"]:
-                    # contains_yield (return-type unwrapping) and find_yield_line use different visitors
-                    report(f"fixture {k}: return type text recorded {g['ret']!r}, declared {w['ret']!r}", "C03-yield-visitors-incomplete")
+                    report(f"fixture {k}: return type text recorded {g['ret']!r}, declared {w['ret']!r}", yid)
             elif w["has_ret"] and not w["ret_simple"]:
                 if g["ret"] is None:
                     report(f"fixture {k}: has a return annotation but none recorded")
